@@ -409,4 +409,166 @@ theorem InvS.preserved : Preserved (fun _ => True) InvS where
 theorem InvS.init (b : Nat) : InvS (Machine.init ListQ.impl b) := by
   constructor <;> simp [Machine.init, ListQ.impl]
 
+/-! ### the extra invariant of histories whose delays are all non-negative -/
+
+structure InvN (s : SState) : Prop where
+  hn : ∀ x ∈ s.h.handlers, ∀ a ∈ x.2.2, Act.nonneg a
+  logle : ∀ d ∈ s.h.log, d.ev.due ≤ s.h.now
+  logq : ∀ d ∈ s.h.log, ∀ e ∈ s.q, lt d.ev e
+  logsorted : s.h.log.Pairwise (fun later earlier => lt earlier.ev later.ev)
+
+theorem lookup_mem {hs : List (Nat × Nat × List Act)} {l t : Nat} {a : Act} (h : a ∈ lookup hs l t) :
+    ∃ x ∈ hs, a ∈ x.2.2 := by
+  unfold lookup at h
+  split at h
+  · rename_i x hx
+    exact ⟨x, List.mem_of_find?_eq_some hx, h⟩
+  · simp at h
+
+theorem InvN.cancelBy {s : SState} (h : InvN s) (p : Ev → Bool) : InvN (cancelBy ListQ.impl s p) :=
+  { hn := h.hn, logle := h.logle, logsorted := h.logsorted
+    logq := fun d hd e he => h.logq d hd e (by
+      have : e ∈ s.q.filter (fun e => !p e) := he
+      exact (List.mem_filter.1 this).1) }
+
+theorem InvN.act (re : Bool) (s : SState) (a : Act) (ha : Act.nonneg a) (hs : InvS s) (h : InvN s) :
+    InvN (applyAct ListQ.impl re s a) := by
+  cases a with
+  | tick k => exact { h with logle := fun d hd => Int.le_trans (h.logle d hd) (Int.ofNat_le.2 (Nat.le_add_right _ _)) }
+  | post l typ d f =>
+    simp only [applyAct]
+    split
+    · exact h
+    · split
+      · exact h
+      · split
+        · exact { h with }
+        · exact { h with
+            logq := fun d0 hd0 e he => by
+              rcases mem_postL.1 he with h1 | h1
+              · exact h.logq d0 hd0 e h1
+              · subst h1
+                have h2 := h.logle d0 hd0
+                have h3 := hs.log_id d0 hd0
+                have h4 : (0 : Int) ≤ d := ha
+                unfold lt
+                show d0.ev.due < (s.h.now : Int) + d ∨ d0.ev.due = (s.h.now : Int) + d ∧ d0.ev.id < s.h.nextId
+                omega }
+  | cancelType l typ => simp only [applyAct]; split; exact h; exact h.cancelBy _
+  | cancelAll l => simp only [applyAct]; split; exact h; exact h.cancelBy _
+  | cancelFlag l f => simp only [applyAct]; split; exact h; exact h.cancelBy _
+  | destroy l =>
+    simp only [applyAct]; split; exact h
+    have h1 := h.cancelBy (matchAll l)
+    exact { h1 with }
+
+theorem InvN.preserved : Preserved Act.nonneg (fun s => InvS s ∧ InvN s) where
+  act := fun re s a ha h => ⟨h.1.act re s a, h.2.act re s a ha h.1⟩
+  deliver := fun s e q' t h hq hdue ht => by
+    refine ⟨h.1.deliver s e q' t hq hdue ht, ?_⟩
+    have hs := h.1.sorted
+    rw [hq, List.pairwise_cons] at hs
+    exact {
+      hn := h.2.hn
+      logle := fun d hd => by
+        rcases List.mem_cons.1 hd with h1 | h1
+        · subst h1; exact Int.le_trans hdue ht
+        · exact h.2.logle d h1
+      logq := fun d hd x hx => by
+        rcases List.mem_cons.1 hd with h1 | h1
+        · subst h1; exact hs.1 x hx
+        · exact h.2.logq d h1 x (by rw [hq]; exact List.mem_cons_of_mem _ hx)
+      logsorted := List.pairwise_cons.2 ⟨fun d hd => h.2.logq d hd e (by rw [hq]; simp), h.2.logsorted⟩ }
+  newl := fun _ _ h _ _ => ⟨InvS.preserved.newl _ _ h.1 ‹_› ‹_›, { h.2 with }⟩
+  handler := fun s l t acts ha h => by
+    refine ⟨InvS.preserved.handler _ l t acts (fun _ _ => trivial) h.1, ?_⟩
+    have hn' : ∀ x ∈ (l, t, acts) :: s.h.handlers, ∀ a ∈ x.2.2, Act.nonneg a := by
+      intro x hx
+      rcases List.mem_cons.1 hx with h1 | h1
+      · subst h1; exact ha
+      · exact h.2.hn x h1
+    exact { hn := hn', logle := h.2.logle, logq := h.2.logq, logsorted := h.2.logsorted }
+  table := fun _ h l t a ha => by
+    obtain ⟨x, hx, hax⟩ := lookup_mem ha
+    exact h.2.hn x hx a hax
+
+theorem InvN.init (b : Nat) : InvN (Machine.init ListQ.impl b) := by
+  constructor <;> simp [Machine.init, ListQ.impl]
+
+/-! ## Part 4: a pass terminates and leaves nothing that is due -/
+
+def mu (s : SState) : Nat := s.q.length + s.h.budget
+
+theorem mu_cancelBy (s : SState) (p : Ev → Bool) : mu (cancelBy ListQ.impl s p) ≤ mu s := by
+  unfold mu
+  have : (Machine.cancelBy ListQ.impl s p).q.length ≤ s.q.length := List.length_filter_le _ _
+  exact Nat.add_le_add_right this _
+
+theorem mu_applyAct (s : SState) (a : Act) : mu (applyAct ListQ.impl true s a) ≤ mu s := by
+  cases a with
+  | tick k => exact Nat.le_refl _
+  | post l typ d f =>
+    simp only [applyAct]
+    split
+    · exact Nat.le_refl _
+    · split
+      · exact Nat.le_refl _
+      · rename_i hb
+        have hb' : s.h.budget ≠ 0 := fun e => hb (by simp [e])
+        split
+        · unfold mu; simp only [if_true]; omega
+        · unfold mu
+          show (ListQ.postL s.q _).length + (if true = true then s.h.budget - 1 else s.h.budget) ≤ _
+          rw [postL_length]; simp only [if_true]; omega
+  | cancelType l typ => simp only [applyAct]; split; exact Nat.le_refl _; exact mu_cancelBy _ _
+  | cancelAll l => simp only [applyAct]; split; exact Nat.le_refl _; exact mu_cancelBy _ _
+  | cancelFlag l f => simp only [applyAct]; split; exact Nat.le_refl _; exact mu_cancelBy _ _
+  | destroy l => simp only [applyAct]; split; exact Nat.le_refl _; exact mu_cancelBy _ _
+
+theorem mu_foldl : ∀ (acts : List Act) (s : SState), mu (acts.foldl (applyAct ListQ.impl true) s) ≤ mu s
+  | [], _ => Nat.le_refl _
+  | a :: acts, s => Nat.le_trans (mu_foldl acts _) (mu_applyAct s a)
+
+/-- with more fuel than `mu`, the loop ends because its test fails, not because the fuel ran out -/
+theorem processLoop_done (t : Int) : ∀ (fuel : Nat) (s : SState), mu s < fuel →
+    ListQ.popDueL (processLoop ListQ.impl fuel t s).q t = none
+  | 0, _, h => by omega
+  | fuel + 1, s, h => by
+    simp only [processLoop]
+    have e2 : ListQ.impl.popDue s.q t = ListQ.popDueL s.q t := rfl
+    rw [e2]
+    cases hq : ListQ.popDueL s.q t with
+    | none => exact hq
+    | some x =>
+      obtain ⟨e, q'⟩ := x
+      obtain ⟨h1, _⟩ := popDueL_some hq
+      simp only
+      have key : ∀ s1 : SState, mu s1 + 1 = mu s → mu (runHandler ListQ.impl s1 e) < fuel := by
+        intro s1 h3
+        have := mu_foldl (lookup s1.h.handlers e.lis e.typ) s1
+        unfold runHandler; omega
+      apply processLoop_done t fuel
+      apply key
+      simp only [mu, h1, List.length_cons]; omega
+
+theorem not_late_spec {s : SState} (h : InvS s) :
+    ∀ e ∈ (process ListQ.impl s).q, (s.h.now : Int) < e.due := by
+  have hinv : InvS (process ListQ.impl s) := InvS.preserved.processLoop _ _ s h (Int.le_refl _)
+  have hdone : ListQ.popDueL (process ListQ.impl s).q (s.h.now : Int) = none :=
+    processLoop_done _ _ s (by unfold passFuel mu; show s.q.length + s.h.budget < s.q.length + s.h.budget + 1; omega)
+  intro e he
+  cases hq : (process ListQ.impl s).q with
+  | nil => rw [hq] at he; simp at he
+  | cons a r =>
+    rw [hq] at hdone he
+    have hs := hinv.sorted
+    rw [hq, List.pairwise_cons] at hs
+    simp only [ListQ.popDueL] at hdone
+    split at hdone
+    · rename_i hgt
+      rcases List.mem_cons.1 he with rfl | he'
+      · omega
+      · have := lt_due_le (hs.1 e he'); omega
+    · cases hdone
+
 end Morfuse.EventQueue
